@@ -3,7 +3,7 @@
 import json, os, shutil, sys
 sid, name, breaks, caught = sys.argv[1:5]
 needs = " ".join(sys.argv[5:])
-src = f"/tmp/seed/{sid}"
+src = os.path.join(os.environ.get("SEEDROOT", "/tmp/seed"), sid)
 dst = f"/verif/seeded/{name}"
 os.makedirs(dst, exist_ok=True)
 for f in ("patch.diff", "demo.py", "NOTES.md"):
